@@ -292,7 +292,20 @@ EXTRA = {
     'C17': " Recipe remove steps: the simulation clauses of bake for the remove kinds are re-discharged here.",
     'C19': " `bounded[plate-fill-step-text]`: the per-well wording of a plate fill_to step (through collapse()) is checked natively, labelled bounded.",
 }
+EXTRA2 = {
+    'C01': " The selector contract of C13 (Slicer.__init__ / Plate.__getitem__ for symbolic plate sizes, labelings and selector contents) is re-discharged under this property: `no substance appears in a well that is neither source nor destination` is decided modulo `plate[selector]` addressing the documented wells.",
+    'C07': " The selector contract of C13 is re-discharged under this property (`exactly the addressed wells` is decided modulo `plate[selector]` addressing the documented wells).",
+    'C03': " Plate level: `plate.fill_to/dispatch` and `per-well` (every addressed well goes through Container.fill_to, so its refusal is the plate's refusal).",
+    'C05': " Concentration units may differ per solute (different denominators in one call).",
+    'C08': " `steps-kept`: the baked recipe keeps all its steps in order (stage windows are positions in that list).",
+    'C09': " `Recipe.bake/steps-kept`: the baked recipe keeps all its steps in order (stage windows are positions in that list).",
+    'C15': " `Recipe.bake/steps-kept` as in C09.",
+    'C10': " `Plate.get_volume` (total = sum over the wells to the displayed precision) and `Container.get_substances` are under contract; `observers[has_liquid/*]`, `observers[get_substances/*]` after _transfer, _add, remove and fill_to: the argument has been asked before, the result answers for its own contents (memo fields carried over by copies). Stores into private attributes (`_x`) are not frame writes.",
+    'C11': " `rounding-placement/Container.dilute/accuracy[dilute]`, `refuse-higher`: the target is reached within the library's band and a higher target refused at every scale of concentration the two-component domain reaches (down to ~1e-11 M), with native replay.",
+}
 for _pid, _t in EXTRA.items():
+    CHECKS[_pid]['note'] += _t
+for _pid, _t in EXTRA2.items():
     CHECKS[_pid]['note'] += _t
 DEPS = (" Modular dependencies are re-discharged under this property's name (a change inside a callee is reported under every "
         "property decided modulo its contract): the unit conversion table, and for C05/C12 the contracts of Container._transfer and __init__.")
